@@ -31,7 +31,7 @@ impl Worker {
             stdin: None,
             stdout: None,
             buf: Vec::new(),
-            watchdog_ms: 20_000,
+            watchdog_ms: 90_000,
             spawns: 0,
         }
     }
